@@ -249,13 +249,13 @@ Definition encodedFrameBodySize (f : frame) (v : N) : N * bool :=
 
 Definition encodeBool (b : bool) : N := if b then 1 else 0.
 
-Definition ToFixHeaderUint8 (f : frame) : N :=
-  let fl := frame_flags f in
+Definition fix_header (ft : N) (fl : flags) : N :=
   let typeAndFlags :=
-    if frame_type f =? CONNACK then encodeBool (f_hsv fl)
+    if ft =? CONNACK then encodeBool (f_hsv fl)
     else encodeBool (f_dup fl) * 8 + encodeBool (f_synconce fl) * 4
          + encodeBool (f_reddot fl) * 2 + encodeBool (f_nopersist fl) in
-  (frame_type f * 16 + typeAndFlags) mod 256.
+  (ft * 16 + typeAndFlags) mod 256.
+Definition ToFixHeaderUint8 (f : frame) : N := fix_header (frame_type f) (frame_flags f).
 
 (* FramerFromUint8: (FrameType, flags) *)
 Definition FramerFromUint8 (v : N) : N * flags :=
